@@ -22,8 +22,17 @@ import (
 	"verif/ref"
 )
 
+// MessageWide is a user-defined message whose id needs all three id bytes of a v2 header.
+type MessageWide struct {
+	A uint32
+	B uint8
+}
+
+// GetID implements message.Message.
+func (*MessageWide) GetID() uint32 { return 0xABCDEF }
+
 var theDialect = &dialect.Dialect{Version: 3, Messages: []message.Message{
-	&common.MessageHeartbeat{}, &common.MessageSysStatus{}, &common.MessageProtocolVersion{},
+	&common.MessageHeartbeat{}, &common.MessageSysStatus{}, &common.MessageProtocolVersion{}, &MessageWide{},
 }}
 var drw *dialect.ReadWriter
 var key = make([]byte, 32)
@@ -37,10 +46,15 @@ const (
 	opOutside         // raw id outside the dialect (refused)
 	opNil             // nil message (refused)
 	opRawBigID        // already encoded (raw) message of the dialect with id 300 (refused on v1: the Node path hands raw messages to the writer)
+	opWide            // decoded message with the 24-bit id 0xABCDEF (refused on v1)
+	opRawWide         // raw message with that id
 	nOps
 )
 
-var opNames = []string{"decoded", "raw", "ext", "id300", "outside", "nil", "rawid300"}
+var opNames = []string{"decoded", "raw", "ext", "id300", "outside", "nil", "rawid300", "id0xABCDEF", "rawid0xABCDEF"}
+
+// bigOp: the message id does not fit a v1 header.
+func bigOp(op int) bool { return op == opBigID || op == opRawBigID || op == opWide || op == opRawWide }
 
 func opMessage(op int, i int) message.Message {
 	switch op {
@@ -56,6 +70,10 @@ func opMessage(op int, i int) message.Message {
 		return &message.MessageRaw{ID: 999999, Payload: []byte{1}}
 	case opRawBigID:
 		return &message.MessageRaw{ID: 300, Payload: []byte{200, 0, 1}}
+	case opWide:
+		return &MessageWide{A: uint32(i) + 1, B: 7}
+	case opRawWide:
+		return &message.MessageRaw{ID: 0xABCDEF, Payload: []byte{1, 0, 0, 0, 9}}
 	}
 	return nil
 }
@@ -201,7 +219,7 @@ func evalHistoryFrom(c *hcase, pre writer) (string, int) {
 		if p := bx.Catch(func() { err = w.Write(opMessage(op, i)) }); p != "" {
 			return p
 		}
-		refuse := op == opOutside || op == opNil || ((op == opBigID || op == opRawBigID) && c.Conf.Version == 1)
+		refuse := op == opOutside || op == opNil || (bigOp(op) && c.Conf.Version == 1)
 		if refuse {
 			if err == nil {
 				return fmt.Sprintf("write %d (%s) must be refused", i, opNames[op])
@@ -251,7 +269,7 @@ func evalHistoryFrom(c *hcase, pre writer) (string, int) {
 			return "wrong message id"
 		}
 		base, _ := def.Sizes()
-		if !f.V2 && op != opRaw && op != opRawBigID && len(f.Payload) != base {
+		if !f.V2 && op != opRaw && op != opRawBigID && op != opRawWide && len(f.Payload) != base {
 			return fmt.Sprintf("v1 payload has %d bytes, base size without extensions is %d", len(f.Payload), base)
 		}
 		if c.Conf.Key {
@@ -465,7 +483,7 @@ func main() {
 			// state = (conf, emitted mod 256)
 			em := j.off
 			for _, op := range c.Ops {
-				if !(op == opOutside || op == opNil || ((op == opBigID || op == opRawBigID) && j.c.Version == 1)) {
+				if !(op == opOutside || op == opNil || (bigOp(op) && j.c.Version == 1)) {
 					em++
 				}
 				states.AddString(fmt.Sprint(j.c, em%256))
@@ -478,7 +496,7 @@ func main() {
 	// full-period runs: 600 accepted writes of each kind, and mixed
 	for _, c := range confs {
 		for op := 0; op < nOps; op++ {
-			if op == opOutside || op == opNil || ((op == opBigID || op == opRawBigID) && c.Version == 1) {
+			if op == opOutside || op == opNil || (bigOp(op) && c.Version == 1) {
 				continue
 			}
 			hc := hcase{Conf: c, Ops: make([]int, 600)}
